@@ -484,6 +484,10 @@ func replay(d *driver, path string) {
 
 // runOne re-evaluates the oracle on one recorded input
 func runOne(d *driver, stream string, def []byte) {
+	if strings.HasPrefix(stream, "casevariant:") {
+		checkCaseVariant(d.res, strings.TrimPrefix(stream, "casevariant:"), def)
+		return
+	}
 	switch stream {
 	case "legacy":
 		var f map[string]any
